@@ -5,28 +5,37 @@
 
 // @harness name=c11_k1_code_spaces prop=C11 tier=quick timeout=2400
 // @flags -Z valid-value-checks
-// @encodes OsCode::from_u16 (from_u16_linux), OsCode::as_u16 (as_u16_linux), impl From<OsCode> for KeyCode, impl From<KeyCode> for OsCode (transmutes), impl From<OsCode> for u16
+// @encodes OsCode::from_u16 (from_u16_linux), impl From<OsCode> for KeyCode, impl From<KeyCode> for OsCode (transmutes)
 // @bounds every u16 value (Linux tables: the build target of this sandbox)
 // @assumes none
-// @spec for every code v: from_u16(v) = Some(o) implies o.as_u16() == v, u16::from(o) == v, KeyCode::from(o) is a declared KeyCode whose numeric value is v, converting back gives o again, and v <= 767; codes with no OsCode map to None
+// @spec for every code v: from_u16(v) = Some(o) implies KeyCode::from(o) is a declared KeyCode whose numeric value is v (an undeclared value is reported as invalid by -Z valid-value-checks), converting back gives o again, and v <= 767
 #[kani::proof]
 fn c11_k1_code_spaces() {
     let v: u16 = kani::any();
-    match OsCode::from_u16(v) {
-        Some(o) => {
-            assert!(o.as_u16() == v, "from_u16 and as_u16 are inverse");
-            assert!(u16::from(o) == v);
-            assert!(v <= 767, "known codes fit the 768-wide layer row");
-            let kc: KeyCode = o.into();
-            assert!(kc as u16 == v, "internal and OS code spaces coincide value for value");
-            let back: OsCode = kc.into();
-            assert!(back == o);
-            assert!(back.as_u16() == v);
-        }
-        None => {}
+    let r = OsCode::from_u16(v);
+    if let Some(o) = r {
+        assert!(v <= 767, "known codes fit the 768-wide layer row");
+        let kc: KeyCode = o.into();
+        assert!(kc as u16 == v, "internal and OS code spaces coincide value for value");
+        let back: OsCode = kc.into();
+        assert!(back == o);
     }
-    kani::cover!(OsCode::from_u16(v).is_some() && v > 700, "high codes (mouse / extended) covered");
-    kani::cover!(OsCode::from_u16(v).is_none(), "unknown codes exist");
+    kani::cover!(r.is_some() && v > 700, "high codes (mouse / extended) covered");
+    kani::cover!(r.is_none(), "unknown codes exist");
+}
+
+// @harness name=c11_k1_as_from prop=C11 tier=quick timeout=2400
+// @encodes OsCode::from_u16 (from_u16_linux), OsCode::as_u16 (as_u16_linux), impl From<OsCode> for u16
+// @bounds every u16 value (Linux tables)
+// @assumes none
+// @spec from_u16 and as_u16 are inverse: from_u16(v) = Some(o) implies o.as_u16() == v and u16::from(o) == v
+#[kani::proof]
+fn c11_k1_as_from() {
+    let v: u16 = kani::any();
+    if let Some(o) = OsCode::from_u16(v) {
+        assert!(o.as_u16() == v, "from_u16 and as_u16 are inverse");
+        assert!(u16::from(o) == v);
+    }
 }
 
 // @harness name=c11_k2_modifiers prop=C11,C13 tier=quick timeout=1200
